@@ -265,6 +265,7 @@ def run(chk):
     inplace_lint(chk, repo, 'R10.7', ['TidalPy/tides/modes/mode_manipulation.py', 'TidalPy/tides/dissipation.py', 'TidalPy/tides/love1d.py', 'TidalPy/toolbox/quick_tides.py'])
     chk.floor('R10.7', 4)
     nonnegativity(chk, repo, it)
+    entry_point(chk, repo)
     chk.floor('R10.1', len(configs) * 2); chk.floor('R10.2', len(configs) * 2 * 2); chk.floor('R10.3', len(configs) * 2)
     chk.floor('R10.4', len(configs)); chk.floor('R10.5', 1); chk.floor('R10.6', 100)
     chk.assume('n, a, R, e > 0; sign(w) w = |w|; compliances arbitrary complex per unique frequency')
@@ -340,3 +341,59 @@ def first_sign_change(node, ser):
         v = float(rt)
         if 1e-12 < v < 1 and (best is None or v < best): best = v
     return best
+
+
+# ------------------------------------------------------------------------------------------------ R10.9 the public entry point end to end
+def entry_point(chk, repo):
+    """toolbox.quick_tides.quick_tidal_dissipation interpreted as a whole (only the rheology's compliance evaluation is a stub returning one free complex compliance per
+    unique frequency): what the user gets back must be the mode-sum identity and, for the default synchronous e^2 / l = 2 case, the classical
+    (21/2) (-Im k2) G M_host^2 R^5 n e^2 / a^6 with a from Kepler's third law and k2 the homogeneous-body Love number."""
+    from fractions import Fraction as Fr
+    mq = repo.by_path('TidalPy/toolbox/quick_tides.py')
+    f = mq.defs.get('quick_tidal_dissipation')
+    if not isinstance(f, ast.FunctionDef):
+        raise AnalysisError('quick_tidal_dissipation vanished')
+
+    def call_hook(itp, fn_, args, kwargs, e, fr):
+        if isinstance(fn_, FuncRef) and fn_.node.name == 'compliance_dict_helper':
+            freqs = args[0] if args else kwargs.get('tidal_frequencies')
+            return {sig: X.atom(f'J{sig[0]}_{sig[1]}'.replace('-', 'm'), 'complex') for sig in freqs}
+        return NotImplemented
+
+    def branch_hook(itp, st, v, fr):
+        return False        # type()/isinstance() tests against numpy arrays: the scalar path
+    it = Interp(repo, hooks={'call': call_hook, 'branch': branch_hook}, max_depth=12)
+    M = X.atom('M_host', 'pos'); m = X.atom('m_target', 'pos'); R = X.atom('R', 'pos'); g = X.atom('g', 'pos'); rho = X.atom('rho', 'pos'); C = X.atom('C', 'pos')
+    eta = X.atom('eta', 'pos'); mu = X.atom('mu', 'pos'); e = X.atom('e', 'pos'); n = X.atom('n', 'pos'); spin = X.atom('spin'); I_ = X.atom('I')
+    Gc = X.atom('const_G', 'pos')
+    d = X.Decider(seed=chk.seed + 71, k=2, positive=[M + m])
+    base = dict(host_mass=M, target_radius=R, target_mass=m, target_gravity=g, target_density=rho, target_moi=C, viscosity=eta, shear_modulus=mu, rheology='Maxwell',
+                eccentricity=e, orbital_frequency=n)
+    where = mq.where(f)
+    # (a) default-style call: synchronous (spin not given), no obliquity, l = 2, e^2 truncation
+    out = it.call(mq, f, [], dict(base))
+    if not isinstance(out, dict) or 'tidal_heating' not in out:
+        raise AnalysisError('quick_tidal_dissipation does not return a result dictionary with tidal_heating')
+    a = X.fn('cbrt', Gc * (M + m) / (n * n))
+    Jn = [v for k_, v in {}.items()]
+    # all modes of the synchronous e^2, l = 2 sum share |w| = n: identify the compliance atoms that occur
+    jat = sorted({a_.val[0] for a_ in X.atoms_of(out['tidal_heating']) if a_.val[0].startswith('J')})
+    J = X.atom(jat[0], 'complex') if jat else None
+    hs = X.subst(out['tidal_heating'], {nm: J for nm in jat[1:]}) if J is not None else out['tidal_heating']
+    m2 = X.const(Fr(19, 2)) * mu / (rho * g * R)
+    k2 = X.const(Fr(3, 2)) / (1 + m2 / (J * mu)) if J is not None else X.ZERO
+    ref = X.const(Fr(21, 2)) * (-X.fn('imag', k2)) * Gc * M * M * R ** 5 * n * e * e / a ** 6
+    ok = J is not None and d.equal(hs, ref)
+    chk.ob('R10.9', 'quick_tidal_dissipation (synchronous, e^2 truncation, l = 2, no obliquity): tidal_heating == (21/2) (-Im k2) G M_host^2 R^5 n e^2 / a^6, a = (G (M + m) / n^2)^(1/3), '
+           'k2 = (3/2) / (1 + 19 mu / (2 rho g R) / (J mu)), all modes sharing one compliance', ok, '' if ok else (d.describe(hs, ref) if J is not None else 'no compliance atom in the result'), where,
+           key='R10.9|classical', method='whole-function interpretation + GF(p^2) PIT')
+    # (b) general call: free spin, obliquity on, l = 3, e^4: returned heating == host_mass (n dUdM - spin dUdO) of the returned derivatives; a and susceptibility as documented
+    for kw, lab in ((dict(spin_frequency=spin, obliquity=I_, max_tidal_order_l=3, eccentricity_truncation_lvl=4, use_obliquity=True), 'Maxwell, free spin, obliquity, l<=3, e^4'),
+                    (dict(spin_frequency=spin, obliquity=I_, rheology='cpl', fixed_k2=X.atom('k2_fixed', 'pos'), fixed_q=X.atom('Q', 'pos')), 'CPL, free spin, obliquity'),
+                    (dict(spin_frequency=spin, rheology='ctl', fixed_k2=X.atom('k2_fixed', 'pos'), fixed_dt=X.atom('dt', 'pos')), 'CTL, free spin')):
+        args = dict(base); args.update(kw)
+        out = it.call(mq, f, [], args)
+        ok = d.equal(out['tidal_heating'], M * (n * out['dUdM'] - spin * out['dUdO']))
+        chk.ob('R10.9', f'quick_tidal_dissipation ({lab}): returned tidal_heating == host_mass (n dUdM - spin dUdO) of the returned potential derivatives', ok,
+               '' if ok else d.describe(out['tidal_heating'], M * (n * out['dUdM'] - spin * out['dUdO'])), where, key=f'R10.9|identity|{lab}', method='whole-function interpretation + GF(p^2) PIT')
+    chk.floor('R10.9', 4)
